@@ -4,6 +4,10 @@ use mclib::engine::{install_quiet_panic_hook, Tier};
 
 mod checks;
 
+// peak/total allocation per decoding call is measured by C06's worker processes
+#[global_allocator]
+static ALLOC: checks::c06::Counting = checks::c06::Counting;
+
 fn main() {
     let args: Vec<String> = std::env::args().collect();
     if args.len() < 2 {
